@@ -63,7 +63,7 @@ def r1_atom_parser(ctx):
         ctx.check(anch and alphabet <= set("0123456789.e+-"), US, "AtomParser", "number literal pattern is anchored and numeric",
                   detail=pat, expected="^...$ over digits . e + -")
         fl = [norm(s) for s in first.body]
-        ctx.check(any("float(" in s for s in fl) and any(s.startswith("return Atom(") and s.endswith(", {})") for s in fl), US,
+        ctx.form(any("float(" in s for s in fl) and any(s.startswith("return Atom(") and s.endswith(", {})") for s in fl), US,
                   "AtomParser", "a number becomes a factor without units", detail=fl)
     # (b) track the residual text variable
     assigns = [n for n in walk_no_nested(fn) if isinstance(n, ast.Assign) and len(n.targets) == 1
@@ -115,7 +115,7 @@ def r1_atom_parser(ctx):
               detail=[s[1] for s in slices], expected=("1", "-len(base)"))
     # longest table suffix
     src = norm(fn)
-    ctx.check(f"[u for u in UNIT_STANDARD.keys() if {p}.endswith(u)]" in src and "base = max(bases, key=len)" in src, US,
+    ctx.form(f"[u for u in UNIT_STANDARD.keys() if {p}.endswith(u)]" in src and "base = max(bases, key=len)" in src, US,
               "AtomParser", "unit symbol is the longest table symbol that is a suffix",
               expected="max(..., key=len) over UNIT_STANDARD symbols with endswith")
     # unknown symbol rejected
@@ -166,7 +166,7 @@ def r1_atom_parser(ctx):
                       f"admissibility cell prefixes={pref_kind} listed={member}", detail=sig,
                       expected="raise" if want_raise else "accept", rule="C03.R2")
     uid = [norm(s) for s in pi.body if isinstance(s, ast.Assign)]
-    ctx.check(any(s == "unitid = f'{prefix:s}{SYMBOL_UNITID}{unitid}'" for s in uid) or any("SYMBOL_UNITID" in s and "prefix" in s for s in uid),
+    ctx.form(any(s == "unitid = f'{prefix:s}{SYMBOL_UNITID}{unitid}'" for s in uid) or any("SYMBOL_UNITID" in s and "prefix" in s for s in uid),
               US, "AtomParser", "accepted prefix and unit form the id prefix:unit", detail=uid, rule="C03.R2")
 
 
@@ -200,46 +200,68 @@ class PrefixHandler(K_handler):
 
 
 # ---------------------------------------------------------------- R3
+OPSYM = {ast.Add: "+", ast.Sub: "-", ast.Mult: "*", ast.Div: "/"}
+
+
 def _exponent_update(fn):
-    """(loop iterable, present-term, absent-term) of the `for unit,exp in X.items(): d[unit] = ...` idiom."""
+    """Abstraction of `for unit,exp in X.items(): d[unit] = d[unit] op exp if unit in d else sexp`:
+    dict(iter, present_op, absent_sign) or dict(iter, scale_op, scale_arg); None if the idiom is absent."""
     for lp in [n for n in fn.body if isinstance(n, ast.For)]:
-        if len(lp.body) == 1 and isinstance(lp.body[0], ast.Assign) and isinstance(lp.body[0].value, ast.IfExp):
-            ie = lp.body[0].value
-            return norm(lp.iter), norm(ie.test), norm(ie.body), norm(ie.orelse), norm(lp.body[0].targets[0])
-        if len(lp.body) == 1 and isinstance(lp.body[0], ast.AugAssign):
-            a = lp.body[0]
-            return norm(lp.iter), None, f"{norm(a.target)} {type(a.op).__name__} {norm(a.value)}", None, norm(a.target)
+        if len(lp.body) != 1:
+            continue
+        st = lp.body[0]
+        if isinstance(st, ast.Assign) and isinstance(st.value, ast.IfExp) and isinstance(st.targets[0], ast.Subscript):
+            ie = st.value
+            tgt = norm(st.targets[0])
+            out = {"iter": norm(lp.iter), "target": tgt, "test": norm(ie.test)}
+            if isinstance(ie.body, ast.BinOp) and norm(ie.body.left) == tgt and type(ie.body.op) in OPSYM:
+                out["present_op"] = OPSYM[type(ie.body.op)]
+                out["present_arg"] = norm(ie.body.right)
+            if isinstance(ie.orelse, ast.Name):
+                out["absent_sign"], out["absent_arg"] = "+", ie.orelse.id
+            elif isinstance(ie.orelse, ast.UnaryOp) and isinstance(ie.orelse.op, ast.USub) and isinstance(ie.orelse.operand, ast.Name):
+                out["absent_sign"], out["absent_arg"] = "-", ie.orelse.operand.id
+            return out
+        if isinstance(st, ast.AugAssign) and isinstance(st.target, ast.Subscript) and type(st.op) in OPSYM:
+            return {"iter": norm(lp.iter), "target": norm(st.target), "scale_op": OPSYM[type(st.op)], "scale_arg": norm(st.value)}
     return None
 
 
 def r3_exponent_algebra(ctx):
     want = {
-        (US, "Atom.__mul__"): ("+", "exp"), (US, "Atom.__truediv__"): ("-", "-exp"),
-        (BU, "BaseUnits.__add__"): ("+", "exp"), (BU, "BaseUnits.__sub__"): ("-", "-exp"),
+        (US, "Atom.__mul__"): "+", (US, "Atom.__truediv__"): "-",
+        (BU, "BaseUnits.__add__"): "+", (BU, "BaseUnits.__sub__"): "-",
     }
-    for (rel, q), (op, absent) in want.items():
+    for (rel, q), op in want.items():
         fn = ctx.fn(rel, q)
         u = _exponent_update(fn)
-        if u is None or u[1] is None:
-            ctx.unrecognised(rel, q, "exponent update", "present/absent idiom not found")
+        if u is None or "present_op" not in u or "absent_sign" not in u or u.get("iter") != "other.baseunits.items()" \
+                or u.get("test") != "unit in baseunits" or u.get("target") != "baseunits[unit]":
+            ctx.unrecognised(rel, q, "exponent update", f"present/absent idiom not recognised: {u}")
             continue
-        it, test, present, absent_got, tgt = u
-        ok = it == "other.baseunits.items()" and test == "unit in baseunits" and present == f"baseunits[unit] {op} exp" \
-            and absent_got == absent and tgt == "baseunits[unit]"
-        ctx.check(ok, rel, q, "exponents: present key => old op exp, absent key => op exp",
-                  detail={"iter": it, "present": present, "absent": absent_got}, expected={"present": f"baseunits[unit] {op} exp", "absent": absent})
+        ok = u["present_op"] == op and u["absent_sign"] == op and u["present_arg"] == "exp" and u["absent_arg"] == "exp"
+        ctx.check(ok, rel, q, "exponents: present key => old op exp, absent key => op exp", detail=u,
+                  expected={"present": f"baseunits[unit] {op} exp", "absent": f"{op}exp"})
         pre = [norm(s) for s in fn.body]
-        ctx.check("baseunits = dict(self.baseunits)" in pre, rel, q, "works on a copy of the left operand's exponents")
+        ctx.form("baseunits = dict(self.baseunits)" in pre, rel, q, "works on a copy of the left operand's exponents")
     for q, op in (("Atom.__mul__", "*"), ("Atom.__truediv__", "/")):
         fn = ctx.fn(US, q)
-        pre = [norm(s) for s in fn.body]
-        ctx.check(f"magnitude = self.magnitude {op} other.magnitude" in pre and pre[-1] == "return Atom(magnitude, baseunits)", US, q,
-                  "numeric factors combine with the same operator", detail=pre[0])
-    for q, op, arg in (("BaseUnits.__mul__", "Mult", "other"), ("BaseUnits.__truediv__", "Div", "div")):
+        mg = [s for s in fn.body if isinstance(s, ast.Assign) and norm(s.targets[0]) == "magnitude" and isinstance(s.value, ast.BinOp)]
+        if len(mg) != 1 or norm(mg[0].value.left) != "self.magnitude" or norm(mg[0].value.right) != "other.magnitude" \
+                or norm(fn.body[-1]) != "return Atom(magnitude, baseunits)":
+            ctx.unrecognised(US, q, "numeric factor", "magnitude = self.magnitude <op> other.magnitude not found")
+            continue
+        got = OPSYM.get(type(mg[0].value.op))
+        ctx.check(got == op, US, q, "numeric factors combine with the same operator as the exponents", detail=got, expected=op)
+    for q, op, arg in (("BaseUnits.__mul__", "*", "other"), ("BaseUnits.__truediv__", "/", "div")):
         fn = ctx.fn(BU, q)
         u = _exponent_update(fn)
-        ok = u is not None and u[0] == "self.baseunits.items()" and u[2] == f"baseunits[unit] {op} {arg}"
-        ctx.check(ok, BU, q, "every exponent is scaled by the factor", detail=u)
+        if u is None or "scale_op" not in u or u["iter"] != "self.baseunits.items()" or u["target"] != "baseunits[unit]":
+            ctx.unrecognised(BU, q, "exponent scaling", f"idiom not recognised: {u}")
+            continue
+        a0 = fn.args.args[1].arg
+        ctx.check(u["scale_op"] == op and u["scale_arg"] == a0, BU, q, "every exponent is scaled by the factor", detail=u,
+                  expected=f"baseunits[unit] {op}= {a0}")
 
 
 # ---------------------------------------------------------------- R4 / R5
@@ -292,11 +314,11 @@ def r4_unit_base(ctx):
             else:
                 ctx.check(g.equals(w), BU, "get_unit_base", f"{name} id: {t}", detail=g.key(), expected=w.key())
     # id split
-    ctx.check("prefix, base = unitid.split(SYMBOL_UNITID)" in [norm(s) for s in branches["prefixed"]], BU, "get_unit_base",
+    ctx.form("prefix, base = unitid.split(SYMBOL_UNITID)" in [norm(s) for s in branches["prefixed"]], BU, "get_unit_base",
               "prefixed id is split into (prefix, unit) in that order")
     # expression text
     s = norm(fn)
-    ctx.check("expression = f'{prefix}{base}{exp}'" in s and "expression = f'{prefix}{base}'" in s and "exp.num == 1 and exp.den == 1" in s,
+    ctx.form("expression = f'{prefix}{base}{exp}'" in s and "expression = f'{prefix}{base}'" in s and "exp.num == 1 and exp.den == 1" in s,
               BU, "get_unit_base", "rendered text is prefix+unit, followed by the exponent unless it is 1")
 
 
@@ -320,23 +342,30 @@ def r5_accumulation(ctx):
     lp = loops[0]
     pre = [norm(s) for s in fn.body[: fn.body.index(lp)]]
     for init in ("self.magnitude = 1", "self.dimensions = Dimensions()", "self.units = []", "self.expression = []"):
-        ctx.check(init in pre, BU, "BaseUnits.__init__", f"accumulator starts neutral: {init}")
+        ctx.form(init in pre, BU, "BaseUnits.__init__", f"accumulator starts neutral: {init}")
     body = [norm(s) for s in lp.body]
     acc = ["self.magnitude *= ubase.magnitude", "self.dimensions += ubase.dimensions", "self.units.append(ubase.units)",
            "self.expression.append(ubase.expression)"]
-    for a in acc:
-        ctx.check(a in body, BU, "BaseUnits.__init__", f"accumulates: {a}")
-    ctx.check("ubase = get_unit_base(unitid, self.baseunits[unitid])" in body, BU, "BaseUnits.__init__",
+    for tgt, op, val in (("self.magnitude", ast.Mult, "ubase.magnitude"), ("self.dimensions", ast.Add, "ubase.dimensions")):
+        au = [x for x in lp.body if isinstance(x, ast.AugAssign) and norm(x.target) == tgt]
+        if len(au) != 1:
+            ctx.unrecognised(BU, "BaseUnits.__init__", f"accumulation of {tgt}", "no single augmented assignment in the loop")
+        else:
+            ctx.check(isinstance(au[0].op, op) and norm(au[0].value) == val, BU, "BaseUnits.__init__", f"accumulates {tgt}",
+                      detail=norm(au[0]), expected=f"{tgt} {OPSYM[op]}= {val}")
+    for a in acc[2:]:
+        ctx.form(a in body, BU, "BaseUnits.__init__", f"collects: {a}")
+    ctx.form("ubase = get_unit_base(unitid, self.baseunits[unitid])" in body, BU, "BaseUnits.__init__",
               "each unit contributes get_unit_base(id, its exponent)")
     # zero exponents are dropped before they contribute
     z = [s for s in lp.body if isinstance(s, ast.If) and norm(s.test) in ("self.baseunits[unitid].num == 0",)]
     ok = len(z) == 1 and [norm(x) for x in z[0].body] == ["del self.baseunits[unitid]", "continue"] and \
         lp.body.index(z[0]) < min(i for i, s in enumerate(lp.body) if norm(s) in acc)
-    ctx.check(ok, BU, "BaseUnits.__init__", "zero exponents are removed and contribute nothing")
+    ctx.form(ok, BU, "BaseUnits.__init__", "zero exponents are removed and contribute nothing")
     post = [norm(s) for s in fn.body[fn.body.index(lp) + 1:]]
-    ctx.check(any("SYMBOL_MULTIPLY.join(self.expression)" in s for s in post), BU, "BaseUnits.__init__",
+    ctx.form(any("SYMBOL_MULTIPLY.join(self.expression)" in s for s in post), BU, "BaseUnits.__init__",
               "unit texts are joined with the multiplication symbol")
-    ctx.check(norm(lp.iter) == "list(self.baseunits.keys())", BU, "BaseUnits.__init__", "iterates over a snapshot of the keys (entries are deleted inside)")
+    ctx.form(norm(lp.iter) == "list(self.baseunits.keys())", BU, "BaseUnits.__init__", "iterates over a snapshot of the keys (entries are deleted inside)")
 
 
 # ---------------------------------------------------------------- R6
@@ -441,8 +470,14 @@ def r6_fraction(ctx):
                           detail=[gn.key(), gd.key()], expected="rationalised factor (int() in Fraction.__init__ would truncate)")
     ctx.floor("fraction arithmetic cells", n, 14)
     # negation, equality, constructor, readers
-    fn = ctx.fn(FR, "Fraction.__neg__")
-    ctx.check([norm(s) for s in K.body_nodoc(fn)] == ["return Fraction(-self.num, self.den)"], FR, "Fraction.__neg__", "negates the numerator")
+    try:
+        h = _frac_cell(ctx, "__neg__", "Fraction")
+        if h.result is None:
+            raise Unrecognised("no Fraction(...) result")
+        gn, gd = h.result
+        ctx.check((gn * sd).equals(-sn * gd), FR, "Fraction.__neg__", "value is -num/den", detail=[gn.key(), gd.key()], expected=["-sn", "sd"])
+    except (Unrecognised, NotSymbolic, IndexError) as e:
+        ctx.unrecognised(FR, "Fraction.__neg__", "value", str(e))
     fn = ctx.fn(FR, "Fraction.__eq__")
     b = K.body_nodoc(fn)
     ok = False
@@ -456,22 +491,28 @@ def r6_fraction(ctx):
     ctx.check(ok, FR, "Fraction.__eq__", "equality by cross-multiplication of (num, den)", detail=det, expected=[(sn * od).key(), (on * sd).key()])
     fn = ctx.fn(FR, "Fraction.__init__")
     b = [norm(s) for s in K.body_nodoc(fn)]
-    ctx.check(b == ["self.num = int(num)", "self.den = int(den)"], FR, "Fraction.__init__", "stores (num, den) in that order", detail=b)
+    ctx.form(b == ["self.num = int(num)", "self.den = int(den)"], FR, "Fraction.__init__", "stores (num, den) in that order", detail=b)
     fn = ctx.fn(FR, "Fraction.from_string")
     s = norm(fn)
-    ctx.check("num, den = value.split(SYMBOL_FRACTION)" in s and "return Fraction(int(num), int(den))" in s and "return Fraction(int(value), 1)" in s,
+    ctx.form("num, den = value.split(SYMBOL_FRACTION)" in s and "return Fraction(int(num), int(den))" in s and "return Fraction(int(value), 1)" in s,
               FR, "Fraction.from_string", "reads num<SYMBOL_FRACTION>den or a whole number")
     fn = ctx.fn(FR, "Fraction.from_tuple")
-    ctx.check([norm(s) for s in K.body_nodoc(fn)] == ["return Fraction(value[0], value[1])"], FR, "Fraction.from_tuple", "(num, den) order")
+    b = K.body_nodoc(fn)
+    if len(b) == 1 and isinstance(b[0], ast.Return) and isinstance(b[0].value, ast.Call) and dotted_name(b[0].value.func) == "Fraction" \
+            and len(b[0].value.args) == 2 and all(isinstance(a, ast.Subscript) and isinstance(a.slice, ast.Constant) for a in b[0].value.args):
+        idx = [a.slice.value for a in b[0].value.args]
+        ctx.check(idx == [0, 1], FR, "Fraction.from_tuple", "(num, den) = (tuple[0], tuple[1])", detail=idx, expected=[0, 1])
+    else:
+        ctx.unrecognised(FR, "Fraction.from_tuple", "order", "not `return Fraction(value[i], value[j])`")
     # normal form: sign on the numerator, gcd removed
     fn = ctx.fn(FR, "Fraction.rebase")
     s = norm(fn)
-    ctx.check("np.gcd(num, den)" in s and "self.num, self.den = reduce(self.num, self.den)" in s, FR, "Fraction.rebase", "common divisors are removed")
-    ctx.check(s.count("self.num = -self.num") == 2 and s.count("self.den = -self.den") == 2 and "self.den < 0" in s, FR, "Fraction.rebase",
+    ctx.form("np.gcd(num, den)" in s and "self.num, self.den = reduce(self.num, self.den)" in s, FR, "Fraction.rebase", "common divisors are removed")
+    ctx.form(s.count("self.num = -self.num") == 2 and s.count("self.den = -self.den") == 2 and "self.den < 0" in s, FR, "Fraction.rebase",
               "a negative denominator is normalised by negating both parts")
     fn = ctx.fn(FR, "Fraction.value")
     s = norm(fn)
-    ctx.check("return self.num / self.den" in s and "return (self.num, self.den)" in s, FR, "Fraction.value", "value forms are num/den and (num, den)")
+    ctx.form("return self.num / self.den" in s and "return (self.num, self.den)" in s, FR, "Fraction.value", "value forms are num/den and (num, den)")
 
 
 # ---------------------------------------------------------------- R7
@@ -497,7 +538,7 @@ def r7_render_read(ctx):
               detail=pat, expected=f"[0-9{frac}+-]+$")
     fn = ctx.fn(FR, "Fraction.__str__")
     s = norm(fn)
-    ctx.check("return f'{self.num}{SYMBOL_FRACTION}{self.den}'" in s and "return str(self.num)" in s, FR, "Fraction.__str__",
+    ctx.form("return f'{self.num}{SYMBOL_FRACTION}{self.den}'" in s and "return str(self.num)" in s, FR, "Fraction.__str__",
               "exponent is rendered as num or num<SYMBOL_FRACTION>den")
     sid = module_const(ctx.repo, "SYMBOL_UNITID")
     ssys = module_const(ctx.repo, "SYMBOL_SYSTEM_UNIT")
@@ -595,43 +636,61 @@ def _dim_loop(fn):
     return None
 
 
+def _component_assign(lp_body):
+    """`dimensions[name] = getattr(self, name) <op> <arg>` -> (op, arg) or None"""
+    if len(lp_body) == 1 and isinstance(lp_body[0], ast.Assign) and norm(lp_body[0].targets[0]) == "dimensions[name]" \
+            and isinstance(lp_body[0].value, ast.BinOp) and norm(lp_body[0].value.left) == "getattr(self, name)" \
+            and type(lp_body[0].value.op) in OPSYM:
+        return OPSYM[type(lp_body[0].value.op)], norm(lp_body[0].value.right)
+    return None
+
+
 def r9_dimensions(ctx):
     G = "getattr(self, name)"
-    want = {"__add__": "+", "__sub__": "-"}
-    for m, op in want.items():
+    for m, op in (("__add__", "+"), ("__sub__", "-")):
         fn = ctx.fn(DM, f"Dimensions.{m}")
         lp = _dim_loop(fn)
-        if lp is None or len(lp.body) != 1 or not isinstance(lp.body[0], ast.If):
-            ctx.unrecognised(DM, f"Dimensions.{m}", "component loop", "loop over DIMENSION_LIST with the two operand kinds not found")
+        cells = None
+        if lp is not None and len(lp.body) == 1 and isinstance(lp.body[0], ast.If) and norm(lp.body[0].test) == "isinstance(other, Dimensions)":
+            cells = (_component_assign(lp.body[0].body), _component_assign(lp.body[0].orelse))
+        if not cells or None in cells or norm(fn.body[-1]) != "return Dimensions(**dimensions)":
+            ctx.unrecognised(DM, f"Dimensions.{m}", "component loop", "loop over DIMENSION_LIST with the two operand kinds not recognised")
             continue
-        i = lp.body[0]
-        ok = norm(i.test) == "isinstance(other, Dimensions)" and [norm(s) for s in i.body] == [f"dimensions[name] = {G} {op} getattr(other, name)"] \
-            and [norm(s) for s in i.orelse] == [f"dimensions[name] = {G} {op} other"] and norm(fn.body[-1]) == "return Dimensions(**dimensions)"
-        ctx.check(ok, DM, f"Dimensions.{m}", f"component-wise {op} over every dimension", detail=[norm(s) for s in i.body + i.orelse])
+        ctx.check(cells == ((op, "getattr(other, name)"), (op, "other")), DM, f"Dimensions.{m}", f"component-wise {op} over every dimension",
+                  detail=cells, expected=((op, "getattr(other, name)"), (op, "other")))
     for m, op, arg in (("__mul__", "*", "other"), ("__truediv__", "/", "other"), ("__neg__", "*", "-1")):
         fn = ctx.fn(DM, f"Dimensions.{m}")
         lp = _dim_loop(fn)
-        ok = lp is not None and [norm(s) for s in lp.body] == [f"dimensions[name] = {G} {op} {arg}"] and \
-            norm(K.body_nodoc(fn)[-1]) == "return Dimensions(**dimensions)"
-        ctx.check(ok, DM, f"Dimensions.{m}", f"every component {op} {arg}", detail=[norm(s) for s in lp.body] if lp else None)
+        c = _component_assign(lp.body) if lp is not None else None
+        if c is None or norm(K.body_nodoc(fn)[-1]) != "return Dimensions(**dimensions)":
+            ctx.unrecognised(DM, f"Dimensions.{m}", "component loop", "loop over DIMENSION_LIST not recognised")
+            continue
+        ctx.check(c == (op, arg), DM, f"Dimensions.{m}", f"every component {op} {arg}", detail=c, expected=(op, arg))
+    # equality: every component, compared as fractions
     fn = ctx.fn(DM, "Dimensions.__eq__")
     lp = _dim_loop(fn)
-    ok = lp is not None and len(lp.body) == 1 and isinstance(lp.body[0], ast.If) and \
+    src = norm(fn)
+    loop_form = lp is not None and len(lp.body) == 1 and isinstance(lp.body[0], ast.If) and \
         norm(lp.body[0].test) in (f"not {G} == getattr(other, name)", f"{G} != getattr(other, name)") and \
         [norm(s) for s in lp.body[0].body] == ["return False"] and norm(fn.body[-1]) == "return True"
-    ctx.check(ok, DM, "Dimensions.__eq__", "two vectors are equal iff every component fraction is equal (by value)",
-              detail=norm(lp.body[0].test) if lp is not None and lp.body and isinstance(lp.body[0], ast.If) else None,
-              expected=f"not {G} == getattr(other, name) -> return False; else True")
+    all_form = f"all(({G} == getattr(other, name) for name in DIMENSION_LIST))" in src
+    if loop_form or all_form:
+        ctx.holds(DM, "Dimensions.__eq__", "two vectors are equal iff every component fraction is equal (by value)")
+    elif ".value(" in src and "==" in src:
+        ctx.violated(DM, "Dimensions.__eq__", "two vectors are equal iff every component fraction is equal (by value)",
+                     detail="compares derived representations (value(...)) instead of the component fractions",
+                     expected="equal fractions have different representations when unreduced (6/2 -> (3,1) vs 3): compare with Fraction.__eq__")
+    else:
+        ctx.unrecognised(DM, "Dimensions.__eq__", "equality", "component-wise comparison idiom not recognised")
     fn = ctx.fn(DM, "Dimensions.from_list")
     s = norm(fn)
     ok = "for n, name in enumerate(DIMENSION_LIST)" in s and "units[name] = Fraction.from_tuple(value[n])" in s and \
         "units[name] = Fraction(value[n])" in s and "return Dimensions(**units)" in s
-    ctx.check(ok, DM, "Dimensions.from_list", "position n of the list is the exponent of dimension name n")
+    ctx.form(ok, DM, "Dimensions.from_list", "position n of the list is the exponent of dimension name n")
     fn = ctx.fn(DM, "Dimensions.__post_init__")
     s = norm(fn)
-    ctx.check("for name in DIMENSION_LIST" in s and "getattr(self, name).num != 0" in s and "self.nodim = False" in s, DM,
-              "Dimensions.__post_init__", "nodim is false as soon as one exponent is non-zero")
-    # dataclass fields agree with DIMENSION_LIST
+    ctx.form("for name in DIMENSION_LIST" in s and "getattr(self, name).num != 0" in s and "self.nodim = False" in s, DM,
+             "Dimensions.__post_init__", "nodim is false as soon as one exponent is non-zero")
     dims = module_const(ctx.repo, "DIMENSION_LIST")
     c = ctx.repo.cls(DM, "Dimensions")
     fields = [st.target.id for st in c.body if isinstance(st, ast.AnnAssign) and isinstance(st.target, ast.Name)]
